@@ -43,10 +43,20 @@ fn main() {
                 nshards,
                 scratch: PathBuf::from(&args[7]),
                 strict_known: false,
+                out_path: Some(PathBuf::from(&args[6])),
             };
             let known = Known::load();
             let out = (def.shard)(&ctx, &known);
             std::fs::write(&args[6], serde_json::to_string(&out).unwrap()).expect("write shard result");
+        }
+        "golden-gen" => {
+            match jv::golden::generate(std::path::Path::new(&args[2])) {
+                Ok(()) => {}
+                Err(e) => {
+                    eprintln!("{}", e);
+                    std::process::exit(1);
+                }
+            }
         }
         "show" => {
             // compact rendering of a replay file
